@@ -18,12 +18,13 @@
 //                                                            exp=<wall ns> ann=<0|1> shards=<idx:hex,...>
 //        A.store_chunk; held/enc/rnonce = A.export_chunk_record; the rest = the returned manifest; ann = A lists itself as provider
 //   fetch <a|b> <id>                                   -> hit <bytes> | miss          Node::fetch_chunk
-//   receive <corr>                                     -> accept|reject ret=<bytes|none> dec=<0|1> stored=<0|1> ann=<0|1> changed=<0|1> fetch=<bytes|miss|->
+//   receive <corr>                                     -> accept|reject ret=<bytes|none> dec=<0|1> stored=<0|1> ann=<0|1> changed=<0|1> fetch=<bytes|miss|throw|->
 //        B.receive_chunk(encode_manifest(corr(manifest of the last store)), corr(held bytes)); dec = decode_manifest accepts the URI;
 //        stored/ann = B holds a record for / lists itself as provider of the (corrupted) manifest's chunk id afterwards;
 //        changed = B's state fingerprint (chunk store, provider table, shard table, manifest cache, swarm plans/ledgers) differs;
 //        fetch = B.fetch_chunk(id) after an accept.  A throw out of receive_chunk is a `reject`.
 //   cli <corr>                                         -> ok <bytes> | null           decrypt_chunk_with_manifest (src/main.cpp); a throw is `null`
+//   ingest <a|b> <corr>                                -> ok | refused                Node::ingest_manifest(corr(manifest)); not judged (observation)
 // <payload>: hex | - | gen:<len>:<seed>.  <bytes>: `-` (empty), hex (<= 64 bytes), else len:<n>:fnv:<fnv1a64>.
 // <corr>: none | item+item+...; items: ct:<k>:<x> ctadd:<hex> ctcut:<k> hash:<k>:<x> nonce:<k>:<x> id:<k>:<x>
 //         shard:<i>:<k>:<x> sidx:<i>:<v> thr:<v> total:<v> exp:<delta_s> drop:<i> rot:<k> rev
@@ -252,6 +253,14 @@ std::string handle(const std::vector<std::string>& t) {
         const auto r = who(t.at(1)).fetch_chunk(verif::id32(t.at(2)));
         return r ? "hit " + canon(*r) : std::string("miss");
     }
+    if (t[0] == "ingest") {
+        // observation outside the property: Node::ingest_manifest takes a manifest without any replica (nothing to verify)
+        if (!have_manifest) return "no-manifest";
+        protocol::Manifest m = last_manifest;
+        std::vector<std::uint8_t> ct;
+        corrupt(t.at(2), m, ct);
+        return who(t.at(1)).ingest_manifest(protocol::encode_manifest(m)) ? "ok" : "refused";
+    }
     if (t[0] == "receive" || t[0] == "cli") {
         if (!have_manifest) return "no-manifest";
         protocol::Manifest m = last_manifest;
@@ -285,8 +294,12 @@ std::string handle(const std::vector<std::string>& t) {
         out += std::string(" ann=") + (announced(*B, m.chunk_id) ? "1" : "0");
         out += std::string(" changed=") + (before != after ? "1" : "0");
         if (r) {
-            const auto f = B->fetch_chunk(m.chunk_id);
-            out += " fetch=" + (f ? canon(*f) : std::string("miss"));
+            try {
+                const auto f = B->fetch_chunk(m.chunk_id);
+                out += " fetch=" + (f ? canon(*f) : std::string("miss"));
+            } catch (const std::exception&) {
+                out += " fetch=throw";
+            }
         } else {
             out += " fetch=-";
         }
